@@ -3,6 +3,6 @@ CONSTANTS
   LegacyPlan = FALSE
   CfgSet <- AllCfgs
 VIEW NoSched
-INVARIANTS InBounds Disjoint Tiling RowOrder EachOnce HeldDistinct
+INVARIANTS InBounds Disjoint Tiling RowOrder EachOnce HeldDistinct CoveredIffTotal
 PROPERTIES Terminates RefinesOrderedRows
 CHECK_DEADLOCK FALSE
